@@ -126,8 +126,7 @@ func (c *Ctx) whoMayCall(rule, what string, target FnPred, allowed ...string) []
 	}
 	for _, s := range sites {
 		fn := s.Parent()
-		name := anchorName(fn)
-		c.check(allow[name], rule, fn, "call of "+what, s.Pos(),
+		c.check(ownedByAny(fn, allow), rule, fn, "call of "+what, s.Pos(),
 			"call site is in the allowed set {"+strings.Join(allowed, ", ")+"}",
 			"call of "+what+" outside the allowed set {"+strings.Join(allowed, ", ")+"}")
 	}
